@@ -13,7 +13,7 @@ LEVEL = "exploration"
 TECHNIQUE = "Hypothesis-generated ragged plate sets compared with a loop-by-loop float64 reference estimator (differential) plus metamorphic re-groupings/permutations"
 RULE = (
     "n=3..32 posterior samples (32 = largest full enumeration under the default budget of 5000) with all C(n,3) triples enumerated, 1..6 plates of 1..8 experiments (ragged; size-1 and single-plate cases "
-    "forced), means in [-30,30] (occasionally 1e3), variances 10^U(-3,3), symmetric non-negative zero-diagonal distance matrices with exact "
+    "forced), means in [-30,30] (occasionally 1e3; in a third of the plates a common level of 1e2, 1e4 or +-1e6 plus differences in [-3,3]), variances 10^U(-3,3), symmetric non-negative zero-diagonal distance matrices with exact "
     "zeros, distance_factor in {1,.5,2}; entry points: heteroscedastic, homoscedastic, vectorized (harness-built NaN padding) and "
     "GaussianDBALScorer.score on real plates with shipped and a harness-defined heteroscedastic Theta, max_chunk 1..7; plus re-grouping, "
     "experiment and sample permutations. Non-trivial = >=2 plates of different sizes (padding exercised) or a size-1 plate. distinct = distinct case JSON."
@@ -62,13 +62,16 @@ def _raw(draw):
     plates = []
     for p in range(n_pl):
         e = draw(st.sampled_from([1, 2, 3] if big else [1, 1, 2, 3, 5, 8]))
+        # in a third of the plates all means sit on one large common level and differ little between posterior samples
+        level = draw(st.sampled_from([None, None, None, None, 100.0, 1e4, 1e6, -1e6]))
+        _m = _mean if level is None else st.floats(min_value=-3, max_value=3, allow_nan=False).map(lambda x, L=level: L + x)
         if big:  # draw a small pool and index into it (keeps generation cheap for 32 x e values)
-            pool_m = [draw(_mean) for _ in range(6)]
+            pool_m = [draw(_m) for _ in range(6)]
             pool_v = [draw(_logvar) for _ in range(4)]
             means = [[pool_m[(3 * i + 5 * j + p) % 6] + 0.01 * i for j in range(e)] for i in range(n)]
             lv = [[pool_v[(i + 2 * j) % 4] for j in range(e)] for i in range(n)]
         else:
-            means = [[draw(_mean) for _ in range(e)] for _ in range(n)]
+            means = [[draw(_m) for _ in range(e)] for _ in range(n)]
             lv = [[draw(_logvar) for _ in range(e)] for _ in range(n)]
         plates.append({"means": means, "logvar": lv})
     homo = [[draw(_logvar) for _ in range(n)] for _ in range(n_pl)] if not big else [[float((i * 7 + q) % 5 - 2) for i in range(n)] for q in range(n_pl)]
